@@ -19,8 +19,9 @@ The 64-bit millisecond clock `N2kMillis64()` is the unbounded `Nat` clock `St.no
 state, the list of heartbeat messages they handed to `SendMsg` (a ghost output: the frames themselves are produced
 by `Send.sendMsg`).
 
-The model transcribes the tree with the three `fix:` commits of `known_findings.d/C12.json` applied (interval
-written in 10 ms units; "keep current" resolved per device; interval 0 stores the zero period).
+The model transcribes the tree with the four `fix:` commits of `known_findings.d/C12.json` applied (interval
+written in 10 ms units; "keep current" resolved per device; interval 0 stores the zero period; `SendHeartbeat(int)`
+tests `IsActiveNode()` like `SendHeartbeat(bool)`).
 -/
 namespace N2k.Heartbeat
 open N2k.Time N2k.Send
@@ -144,6 +145,7 @@ def sendHeartbeat (force : Bool) (h : HSt) : HSt × List (Nat × Msg) :=
 
 /-- `SendHeartbeat(int iDev)` (used by the group function handler): forced, sequence 0xff -/
 def sendHeartbeatOne (h : HSt) (i : Nat) : HSt × Option Msg :=
+  if ¬ h.st.claimMode then (h, none) else   -- !IsActiveNode()
   match h.st.devs[i]?, h.hb[i]? with
   | some _, some b =>
     let m := setN2kPGN126993 b.sched.period 0xff
